@@ -145,9 +145,11 @@ var $newType = (size, kind, string, named, pkg, exported, constructor) => {
                 typ.len = len;
                 typ.comparable = elem.comparable;
                 typ.keyFor = x => {
-                    return Array.prototype.join.call($mapArray(x, e => {
+                    // Array.prototype.map (unlike $mapArray) yields a plain array even when x is a
+                    // typed array, which could not hold the per-element key strings.
+                    return Array.prototype.map.call(x, e => {
                         return String(elem.keyFor(e)).replace(/\\/g, "\\\\").replace(/\$/g, "\\$");
-                    }), "$");
+                    }).join("$");
                 };
                 typ.copy = (dst, src) => {
                     if (src.length === undefined) {
